@@ -149,6 +149,8 @@ fn check_bytes(id: u8, data: &[u8]) -> Vec<u8> {
         0 => vec![],
         1 => crc32(data).to_le_bytes().to_vec(),
         4 => crc64(data).to_le_bytes().to_vec(),
+        // a well-formed SHA-256 file carries the real digest
+        10 => super::crc::sha256(data).to_vec(),
         _ => {
             // placeholder (not a real digest): deterministic filler
             let n = check_size(id);
